@@ -260,7 +260,14 @@ def failed_copy_never_trusted(ck: Checker, rule: str) -> None:
                 failed.add(x.func.value.id)
     sup = [c for n in g.nodes.values() for c in calls_at(n) if isinstance(c.func, ast.Attribute) and c.func.attr == "add" and norm(c.func.value).startswith("super(")]
     # the wrapper is what the delegated add reports to (possibly `None if on_error is None else wrapper`)
-    wrapped = any(any(isinstance(x, ast.Name) and x.id in fn.children for x in walk_expr(k.value)) for c in sup for k in c.keywords if k.arg == "on_error")
+    wrappers = set(fn.children)
+    for _ in range(3):
+        # `record_error = None; if on_error is not None: def _wrap(...); record_error = _wrap`: a local that holds the wrapper
+        for a in walk_own(fn.node):
+            if isinstance(a, (ast.Assign, ast.AnnAssign)) and getattr(a, "value", None) is not None and any(isinstance(x, ast.Name) and x.id in wrappers for x in walk_expr(a.value)) \
+                    and not any(isinstance(x, ast.Call) for x in walk_expr(a.value)):
+                wrappers |= {t.id for t in (a.targets if isinstance(a, ast.Assign) else [a.target]) if isinstance(t, ast.Name)}
+    wrapped = any(any(isinstance(x, ast.Name) and x.id in wrappers for x in walk_expr(k.value)) for c in sup for k in c.keywords if k.arg == "on_error")
     prots = [n for n in g.nodes.values() for c in calls_at(n) if is_method_call(c, "protect") and norm(c.func.value) == "self" and n.loops]
     ck.floor(rule, len(prots), 1, "per-object protect in HashFileDB.add")
     for n in prots:
